@@ -612,3 +612,13 @@ def inject_loop_contracts(ctx, relpath, rules, tag):
     with open(os.path.join(d, os.path.basename(relpath)), "w") as f:
         f.write(text)
     return d
+
+
+def undecided_job(name, reason, funcs=()):
+    """A placeholder that reports `reason` as UNDECIDED for one group of jobs (e.g. the translator rejected or crashed on a probe module)
+    while the other jobs of the property still run."""
+    j = Job(name, src=None, solver="static", funcs=list(funcs))
+    def fn(ctx, job, _r=reason):
+        raise Undecided(_r)
+    j.static_fn = fn
+    return j
